@@ -62,10 +62,10 @@ LAZY_OFF = 500000000   # case ids of the second execution variant
 
 
 def gencfg(ctx, name, ops, depth, kinds=("default", "first", "even"), where=("body", "cell", "resource"), via=VIA1,
-           new=True, schemes=(), contents=(), flags=(True,), abs_=(False,), last=(), keep=("only",)):
+           new=True, schemes=(), contents=(), flags=(True,), abs_=(False,), last=(), keep=("only",), pics=("png",)):
     c = {"MaxSteps": 0, "Depth": depth, "OpNames": set(ops), "KindsC": set(kinds), "WhereC": set(where), "ViaC": set(via),
          "StartNew": new, "SchemesC": set(schemes), "ContentsC": set(contents), "FlagsC": set(flags), "AbsC": set(abs_),
-         "LastC": set(last), "Design": "unused", "KeepC": set(keep)}
+         "LastC": set(last), "Design": "unused", "KeepC": set(keep), "PicC": set(pics)}
     return ctx.cfg(name, "SpecGen", c, invariants=["Emit"])
 
 
@@ -87,6 +87,9 @@ def plans(seed, q):
     # one engine renders the same template with the same data twice: the first / the second document is the one kept
     P += [("render2", dict(ops=["Placeholder", "Render", "AddImage"], depth=3 if q else 4, kinds=("default",), where=("body", "cell"),
                            via=VIA1 | ({"renderer"} if seed % 2 else {"legacy"}), keep=("first", "second")))]
+    # pictures whose file name does not carry the canonical extension of their format, through every picture entry point
+    P += [("pics", dict(ops=["AddImage", "Reopen", "ToBytes"], depth=2 if q else 3, kinds=("default",), where=("body", "cell", "resource"),
+                        via=VIA1 | {"file"}, pics=("png", "jpg", "gifcap")))]
     # notes added and taken away again (one / all of them), in every order, with Reopen in between
     P += [("notes", dict(ops=["AddFootnote", "AddEndnote", "Reopen"] + REMOVE, depth=3 if q else 5, kinds=k2[:1], where=("body",)))]
     if q:
